@@ -438,6 +438,76 @@ Definition chk_C19_net (c o : value) : bool :=
   | _, _ => true
   end.
 
+(* ------------------------------------------------------------------ family "socklate": the case of family sock, observed by a
+   bytesWritten listener that subscribes only when the application op 12 runs (logged as note 77): the notifications before
+   that point are not seen. *)
+Definition is_listen_v (v : value) : bool := match v with VL [VI 30; VI 77] => true | _ => false end.
+Definition is_written_v (v : value) : bool := match v with VL [VI 3; VI _] => true | _ => false end.
+Fixpoint drop_unheard (l : list value) (listening : bool) : list value :=
+  match l with
+  | [] => []
+  | v :: l' => if is_listen_v v then v :: drop_unheard l' true
+               else if is_written_v v && negb listening then drop_unheard l' listening
+               else v :: drop_unheard l' listening
+  end.
+Definition run_socklate (c : value) : value :=
+  match run_sock c with
+  | VL l => if existsb is_bad (map dec_lev l) then verr else VL (drop_unheard l false)
+  | v => v
+  end.
+
+(* C18 for a listener that subscribes late: from the subscription on, the notifications count exactly the body bytes
+   acknowledged from then on - never header bytes still unacknowledged at that point, never fewer *)
+Record c18late := { tx' : Z; ack' : Z; em' : Z; base' : option Z; closed' : bool; ok' : bool; dom' : bool }.
+Definition chk_C18_late (c o : value) : bool :=
+  match c with
+  | VL [p; VL ops0; _; VL [VI 18]] =>
+      match dec_ops ops0 with
+      | Some ops =>
+          let l := dec_log o in
+          if existsb is_bad l then false
+          else
+            match find_sub CRLFCRLF (wire_of l) with
+            | None => Nat.eqb (count (fun e => match e with LWritten _ => true | _ => false end) l) 0
+            | Some i =>
+                let h := Z.of_nat i + 4 in
+                let body a := Z.max 0 (a - h) in
+                let st := fold_left
+                  (fun st e =>
+                     match e with
+                     | LMark k =>
+                         match nth_error ops (Z.to_nat k) with
+                         | Some (Ack n) =>
+                             let a := ack' st + n in
+                             {| tx' := tx' st; ack' := a; em' := em' st; base' := base' st; closed' := closed' st; ok' := ok' st;
+                                dom' := dom' st && (0 <=? n) && (a <=? tx' st) |}
+                         | _ => st
+                         end
+                     | LTx b => {| tx' := tx' st + blen b; ack' := ack' st; em' := em' st; base' := base' st; closed' := closed' st; ok' := ok' st; dom' := dom' st |}
+                     | LNote (VI 77) =>
+                         {| tx' := tx' st; ack' := ack' st; em' := em' st;
+                            base' := match base' st with None => Some (body (ack' st)) | b => b end;
+                            closed' := closed' st; ok' := ok' st; dom' := dom' st |}
+                     | LWritten n =>
+                         let em := em' st + n in
+                         {| tx' := tx' st; ack' := ack' st; em' := em; base' := base' st; closed' := closed' st;
+                            ok' := ok' st && (0 <=? n) &&
+                                   match base' st with Some b => em <=? body (ack' st) - b | None => false end;
+                            dom' := dom' st |}
+                     | LClose => {| tx' := tx' st; ack' := ack' st; em' := em' st; base' := base' st; closed' := true; ok' := ok' st; dom' := dom' st |}
+                     | _ => st
+                     end) l {| tx' := 0; ack' := 0; em' := 0; base' := None; closed' := false; ok' := true; dom' := true |} in
+                if negb (dom' st) then true
+                else ok' st &&
+                     (if negb (closed' st) && (ack' st =? tx' st)
+                      then match base' st with Some b => em' st =? body (ack' st) - b | None => em' st =? 0 end
+                      else true)
+            end
+      | None => true
+      end
+  | _ => true
+  end.
+
 (* ------------------------------------------------------------------ family "stream" (real loopback, back-pressure writes):
    obs ::= ( bodyWritten notifiedSum maxOvershoot clientBodyLen stalled ).  C18: the notifications never exceed the body bytes
    written so far, and once everything is flushed their sum equals them (so a sender that writes its next chunk from the
